@@ -194,6 +194,7 @@ def gen(rng: Rng, tier: str, index: int) -> dict:
         shape = r.pick(['self', 'mutual', 'chain'])
         branching = r.pick([1, 1, 2])
         return {'mode': 'recursive', 'shape': shape, 'branching': branching, 'recur_limit': r.pick([None, None, 3, 8]),
+                'spelling': r.pick([0, 0, 1, 2, 3, 4]),
                 'templates': [_gen_template(r, 0), _gen_template(r, 1)], 'steps': []}
     nt = r.randrange(1, 4)
     templates = [_gen_template(r, i) for i in range(nt)]
@@ -530,8 +531,12 @@ def _run_recursive(case, out: Outcome):
     ta, tb = dict(case['templates'][0]), dict(case['templates'][1])
     ta['file'], tb['file'] = 'instances/a.vmf', 'instances/b.vmf'
 
+    spell = case.get('spelling', 0)
+
     def nest(file, n):
-        return [{'file': file, 'origin': [64.0 * (i + 1), 0.0, 0.0], 'angles': [0.0, 90.0 * i, 0.0], 'name': f'n{i}'} for i in range(n)]
+        forms = [file, file.upper(), file.replace('/', '\\'), file.title()]
+        return [{'file': (forms[spell] if spell < 4 else forms[i % len(forms)]) if spell else file, 'origin': [64.0 * (i + 1), 0.0, 0.0], 'angles': [0.0, 90.0 * i, 0.0],
+                 'name': f'n{i}'} for i in range(n)]
     if shape == 'self':
         ta['nested'] = nest('instances/a.vmf', br)
     elif shape == 'mutual':
@@ -548,8 +553,9 @@ def _run_recursive(case, out: Outcome):
         out.event('template-build-failed', type(exc).__name__)
         return out
     vmf = VMF()
-    vmf.create_ent('func_instance', file='instances/a.vmf', origin='0 0 0', angles='0 0 0', targetname='top')
-    vmf.create_ent('func_instance', file='instances/a.vmf', origin='512 0 0', angles='0 90 0', targetname='top2')
+    top = nest('instances/a.vmf', 2)
+    vmf.create_ent('func_instance', file=top[0]['file'], origin='0 0 0', angles='0 0 0', targetname='top')
+    vmf.create_ent('func_instance', file=top[1]['file'], origin='512 0 0', angles='0 90 0', targetname='top2')
     limit = case['recur_limit'] if shape != 'chain' else None    # a chain must collapse completely: use the default limit
     budget = 2500 if limit is None else max(2500, 4 * (br ** (limit + 1)))
     calls = [0]
@@ -578,7 +584,7 @@ def _run_recursive(case, out: Outcome):
         instancing.collapse_one = real
     out.steps = calls[0]
     out.stats['collapse_one_calls'] += calls[0]
-    out.states.add(f'recursion:{shape}|branching={br}|limit={limit}|{result}')
+    out.states.add(f'recursion:{shape}|branching={br}|limit={limit}|spelling={spell}|{result}')
     out.event(shape, br, limit, result, calls[0])
     if result == 'budget':
         out.violate('no-termination', f'{shape}|branching={br}|limit={"default" if limit is None else "small"}',
